@@ -74,7 +74,7 @@ theorem filter_replaceVal (q : Nat × String → Bool) (t : Nat) (v : String) (l
   | cons p r ih =>
     obtain ⟨k, w⟩ := p
     by_cases hk : k = t
-    · subst hk; simp [replaceVal, List.filter_cons, h]
+    · subst hk; simp [replaceVal, h]
     · simp [replaceVal, hk, List.filter_cons, ih]
 
 theorem all_replaceVal (f : Nat × String → Bool) (t : Nat) (v : String) (l : List (Nat × String))
@@ -157,7 +157,7 @@ theorem filter_setR (q : Nat × String → Bool) (m : Msg) (t : Nat) (v : String
   unfold setR
   by_cases hh : m.has t = true
   · simp only [hh, if_true]; exact filter_replaceVal q t v _ h
-  · simp [hh, List.filter_append, List.filter_cons, h]
+  · simp [hh, List.filter_append, h]
 
 theorem filter_delR (q : Nat × String → Bool) (m : Msg) (t : Nat)
     (h : ∀ w, q (t, w) = false) : (m.delR t).tags.filter q = m.tags.filter q := by
